@@ -41,7 +41,8 @@ LoadOk(e) ==
       /\ (fits <=> ~e.refused)
       /\ (~fits => e.code # 0)
 (* running the object file behaves like running the source *)
-PairOk(e) == e.asm = e.obj
+(* ... and (ESC characters aside, D9) prints the same with and without --minimal *)
+PairOk(e) == e.asm = e.obj /\ e.full = e.asm
 
 (* ---- C07: check, compile, run agree ---- *)
 AgreeOk(e) ==
